@@ -170,9 +170,12 @@ Definition atoi_ok (s : str) : bool :=
   | _ => negb (is_nil s) && all_digits s && (dec_val s <? 2 ^ 63)
   end.
 
-(* every attribute whose local name is [local] converts (tag "local,attr", no namespace) *)
+(* every UNQUALIFIED attribute whose local name is [local] converts.  (encoding/xml matches
+   a tag "local,attr" in any namespace, but smDecoder.decode and History.UnmarshalXML drop
+   or skip every attribute with a non-empty namespace first.) *)
 Definition attrs_conv (ok : str -> bool) (local : str) (a : list attr) : bool :=
-  forallb (fun x : attr => if str_eqb (snd (fst x)) local then ok (snd x) else true) a.
+  forallb (fun x : attr =>
+             if is_nil (fst (fst x)) && str_eqb (snd (fst x)) local then ok (snd x) else true) a.
 
 (* ---- the generic hand-written loop ---- *)
 Inductive lres :=
@@ -251,15 +254,16 @@ Definition deleg_child : handler := fun n _ r =>
   if name_eqb n forwarded_name then fwd_elem n r else skip r.
 Definition deleg_elem (self : name) (r : list token) := run_loop deleg_child self r.
 
-(* MucPresence (tag-driven): every direct child with local name "history" runs
+(* MucPresence (tag-driven): every direct child <history/> IN THE MUC NAMESPACE runs
    History.UnmarshalXML, which converts maxchars / maxstanzas / seconds with strconv.Atoi
    and fails the whole DecodeElement otherwise (D18). *)
 Definition history_ok (a : list attr) : bool :=
   attrs_conv atoi_ok s_maxchars a && attrs_conv atoi_ok s_maxstanzas a
   && attrs_conv atoi_ok s_seconds a.
+Definition history_name : name := (ns_muc, s_history).
 Definition muc_ok (inner : list token) : bool :=
   forallb (fun c : name * list attr =>
-             if str_eqb (snd (fst c)) s_history then history_ok (snd c) else true)
+             if name_eqb (fst c) history_name then history_ok (snd c) else true)
           (direct_starts 0 inner).
 
 (* "the registered child is well-typed for its Go struct": content on which DecodeElement
@@ -289,9 +293,12 @@ Definition known_child (k : kind) (local : str) : bool :=
   end.
 
 (* Message.UnmarshalXML / Presence.UnmarshalXML, case xml.StartElement *)
-Definition stanza_child (k : kind) : handler := fun n a r =>
+(* [sns]: the namespace of the stanza itself (start.Name.Space): body, subject, thread,
+   error / show, status, priority are recognised only in that namespace; the same local
+   name in another namespace is an unknown extension. *)
+Definition stanza_child (sns : str) (k : kind) : handler := fun n a r =>
   if registered k n then ext_elem k n a r
-  else if known_child k (snd n) then
+  else if str_eqb (fst n) sns && known_child k (snd n) then
     (if str_eqb (snd n) s_error then err_elem n r else skip r)
   else if repaired then skip r     (* default: err = d.Skip() *)
   else Some r.                     (* unchanged tree: nothing consumed *)
@@ -303,8 +310,8 @@ Definition iq_child : handler := fun n a r =>
   else if registered KIQ n then ext_elem KIQ n a r
   else skip r.
 
-Definition child_of (k : kind) : handler :=
-  match k with KIQ => iq_child | _ => stanza_child k end.
+Definition child_of (sns : str) (k : kind) : handler :=
+  match k with KIQ => iq_child | _ => stanza_child sns k end.
 
 (* SMFailed.UnmarshalXML (after 92db6e3 and the D23 repair): a child outside the namespace
    urn:ietf:params:xml:ns:xmpp-stanzas is skipped whatever its name; inside it, a listed
@@ -336,7 +343,7 @@ Definition tagged (p : result) (attrs_ok : bool) (r : list token) : result * lis
   if attrs_ok then done p r (skip r) else (Err EDecode, r).
 
 Definition decode_stanza (k : kind) (n : name) (a : list attr) (r : list token) :=
-  done (stanza_pkt k a) r (run_loop (child_of k) n r).
+  done (stanza_pkt k a) r (run_loop (child_of (fst n) k) n r).
 
 (* The switch nest of NextPacket / decodeStream / decodeSASL / decodeClient /
    decodeComponent / smDecoder.decode: namespace first, then local name. *)
